@@ -250,10 +250,37 @@ CONSTS = {"np.pi": math.pi, "math.pi": math.pi, "numpy.pi": math.pi, "math.tau":
           "math.e": math.e, "math.inf": math.inf, "np.inf": math.inf, "numpy.inf": math.inf, "np.e": math.e}
 
 
+# module-level numeric constants of the module under analysis (`_TOL = 1e-6`): set by an engine while it scans one
+# function (see module_consts), so that a named constant is read like the literal it stands for
+MODULE_CONSTS = {}
+
+
+def module_consts(tree):
+    """{name: number} for module-level names assigned exactly once, to a numeric constant expression"""
+    seen, out = {}, {}
+    for st in getattr(tree, "body", []):
+        tg = None
+        if isinstance(st, ast.Assign) and len(st.targets) == 1 and isinstance(st.targets[0], ast.Name):
+            tg, val = st.targets[0].id, st.value
+        elif isinstance(st, ast.AnnAssign) and isinstance(st.target, ast.Name) and st.value is not None:
+            tg, val = st.target.id, st.value
+        if tg:
+            seen[tg] = seen.get(tg, 0) + 1
+            saved = dict(MODULE_CONSTS)
+            MODULE_CONSTS.clear()
+            v = const_value(val)
+            MODULE_CONSTS.update(saved)
+            if v is not None:
+                out[tg] = v
+    return {k: v for k, v in out.items() if seen.get(k) == 1}
+
+
 def const_value(e):
     """numeric value of a constant expression or None"""
     if isinstance(e, ast.Constant) and isinstance(e.value, (int, float)) and not isinstance(e.value, bool):
         return e.value
+    if isinstance(e, ast.Name) and e.id in MODULE_CONSTS:
+        return MODULE_CONSTS[e.id]
     if isinstance(e, ast.Attribute) and U(e) in CONSTS:
         return CONSTS[U(e)]
     if isinstance(e, ast.UnaryOp) and isinstance(e.op, (ast.USub, ast.UAdd)):
